@@ -223,16 +223,22 @@ func (p *c11Peer) remoteAnswer(typ webrtc.SDPType) {
 	if off == nil || off.Type != webrtc.SDPTypeOffer {
 		off = p.lastOffer
 	}
-	if off == nil || !p.ensureRemote() {
+	if off == nil {
 		return
 	}
-	if err := p.remote.SetRemoteDescription(webrtc.SessionDescription{Type: webrtc.SDPTypeOffer, SDP: off.SDP}); err != nil {
+	// a fresh answering peer every time: a rolled-back remote offer leaves its transceivers behind in pion,
+	// so a re-used helper can refuse a later offer of ours and the answer would silently not be applied
+	helper, err := c11NewPC(false)
+	if err != nil {
+		return
+	}
+	defer func() { _ = helper.Close() }()
+	if err := helper.SetRemoteDescription(webrtc.SessionDescription{Type: webrtc.SDPTypeOffer, SDP: off.SDP}); err != nil {
 		c11Dbg("N(remote side)", err)
 
 		return
 	}
-	ans, err := p.remote.CreateAnswer(nil)
-	_ = p.remote.SetRemoteDescription(webrtc.SessionDescription{Type: webrtc.SDPTypeRollback})
+	ans, err := helper.CreateAnswer(nil)
 	if err != nil {
 		return
 	}
